@@ -296,7 +296,7 @@ pub fn property(ctx: &Ctx) -> Property {
         id: "C10",
         rule: "cases: histories of 4-40 (long part: up to 200) top-level calls on one DrawTarget (1..48 px, widely varying vertical extents): fills, fill_rects, strokes, masks, clear, image draws, clip groups, layer groups, transform changes (incl. singular), paths whose first op is line_to/quad_to/cubic_to, and no-op 'noise' calls (empty paths; paths wholly above/below/left/right of the surface; zero-area and horizontal-only paths; draws under a singular transform; zero/negative/NaN-width strokes; push_clip of off-surface, empty or arbitrary paths immediately popped; rectangles ending exactly at row 0). Oracle: (i) every top-level call is also applied to a fresh DrawTarget holding the same pixels with the transform re-set: pixels must be identical; (ii) the history with all noise calls deleted (noise classified in device space) must show identical pixels at every checkpoint; (iii) the cfg(raqote_verif) hook verif_rasterizer_idle() must hold after every public call in both runs. Non-trivial: >=1 noise call followed by a visible draw, and >=2 visible draws with disjoint vertical extents; distinct by hash of the case.",
         assumptions: vec!["checkpoints are top-level calls (a clip group or a layer group counts as one call); inside groups the idle hook is still checked after every call", "'indefinitely' is sampled by histories of bounded length"],
-        parts: vec![part("history", 15_000, 400_000, move || strategy(&c, 40), check), part("long", 300, 20_000, move || strategy(&c2, 200), check)],
+        parts: vec![part("history", 40_000, 600_000, move || strategy(&c, 40), check), part("long", 600, 20_000, move || strategy(&c2, 200), check)],
         min_class_fraction: vec![("history", "noise-call", 0.8), ("history", "visible-draw-after-noise", 0.5), ("history", "disjoint-vertical-extents", 0.25), ("history", "path-without-leading-moveto", 0.3), ("history", "layer-group", 0.1)],
         panic_is_violation: false,
     }
